@@ -217,8 +217,10 @@ def run(ctx):
                        'legal moves of the generic simulators are read from the specification given to them']
     only = getattr(ctx, 'only', None)
     if not only or 'random' in only:
-        run_hypothesis(ctx, 'random', simrun.sim_case(), prop_case, 1500 if quick else 60000,
-                       min_class_fraction={'ended-by-horizon': 0.1, 'ended-by-extinction': 0.1, 'ended-immediately': 0.05})
+        from ..runner import check_class_fractions
+        for sim in simrun.SIMS:          # equal share per simulator
+            run_hypothesis(ctx, 'random', simrun.sim_case(sims=[sim]), prop_case, 125 if quick else 5000)
+        check_class_fractions(ctx, 'random', {'ended-by-horizon': 0.1, 'ended-by-extinction': 0.1, 'ended-immediately': 0.05})
     if not only or 'horizon' in only:
         run_hypothesis(ctx, 'horizon', horizon_case(), prop_case, 400 if quick else 10000)
     if not only or 'gillespie-horizon' in only:
